@@ -99,7 +99,7 @@ def packets_of_body(body):
     return [p for p in (body or '').split(rm.SEP) if p != '']
 
 
-def check_case(case, ctx=None):
+def _check_case(case, ctx=None):
     impl = case['impl']
     rep = dict(case)
     I, T = case['I'], case['T']
@@ -456,6 +456,13 @@ def check_urls(h, impl, case, rep):
             if not (piece.startswith('sid=') or piece.startswith('t=')):
                 raise V(impl, 'wrong-url-query', kind + '|extra',
                         'unexpected query piece %r in %r' % (piece, q), rep)
+
+
+def check_case(case, ctx=None):
+    from vk import watchdog
+    impl = case.get('impl', '?')
+    watchdog.run_case(lambda: _check_case(case, ctx),
+                      lambda msg: V(impl, 'step-never-completes', 'busy-loop', msg, dict(case)))
 
 
 def run_shard(ctx):
